@@ -321,7 +321,47 @@ func (w *world) fixedProbeAcrossClockWrap(base uint32, before uint32) {
 	w.end()
 }
 
+// fixedShrinkBelowQueued (regression corpus, C03/C04): the receiver lowers its window below the
+// number of segments already waiting for the reader ("accept first, configure afterwards") and does
+// not read.  It must advertise 0 (the route oracle judges every emitted segment), the sender must come
+// to a standstill, and the transfer completes once the reader is back.
+func (w *world) fixedShrinkBelowQueued() {
+	w.begin(cfg{stall: true}, 29)
+	w.stream = false
+	w.setNoDelay(w.a, 1, 10, 2, 1)
+	w.setNoDelay(w.b, 1, 10, 2, 1)
+	take := func(q *[][]byte) [][]byte { o := *q; *q = nil; return o }
+	w.now = 0
+	for i := 0; i < 40; i++ {
+		w.send(w.a, []byte{byte(i)})
+	}
+	w.flush(w.a, true) // 32 leave (rmt_wnd = 32)
+	for _, p := range take(&w.netAB) {
+		w.input(w.b, p, true, false)
+	}
+	w.b.resized = true
+	w.setWnd(w.b, 32, 16) // 32 queued > 16
+	nxt0 := kcp.VerifKCPState(w.a.k).SndNxt
+	for i := 0; i < 300 && !w.aborted; i++ { // 3 s without a reader
+		w.now += 10
+		w.flush(w.b, true)
+		for _, p := range take(&w.netBA) {
+			w.input(w.a, p, true, false)
+		}
+		w.flush(w.a, true)
+		for _, p := range take(&w.netAB) {
+			w.input(w.b, p, true, false)
+		}
+	}
+	if d := kcp.VerifKCPState(w.a.k); !w.aborted && d.SndNxt != nxt0 {
+		w.viol("sent-while-throttled", fmt.Sprintf("the receiver holds 32 segments with a window of 16 and does not read, yet the sender numbered %d new segments", d.SndNxt-nxt0))
+	}
+	w.drain()
+	w.end()
+}
+
 func (w *world) fixedStall() {
+	w.fixedShrinkBelowQueued()
 	for _, base := range []uint32{0, 1 << 31} {
 		w.fixedProbeAcrossClockWrap(base, 5)
 		w.fixedProbeAcrossClockWrap(base, 1)
